@@ -578,6 +578,22 @@ def run_rep(inp):
             want = np.einsum("ij,...j->...i", colmat(w), np.array(pts.proj_data))
             if not O.rows_proj_eq(R.proj_data[..., j, :], want, 1e-7):
                 bad.append({"what": "elements_pairwise", "word": w})
+    # histories (wave 6): a generator is assigned again on the same object (the in-place deformation pattern), directly or
+    # through its inverse name; words containing the inverse letter must act through the inverse of the *current* matrix
+    if not inp.get("own_uppercase"):
+        for step, name in enumerate(["a", "B", "a"]):
+            Tn = O.isometries(g, [], n) if inp["hyp"] else O.invertibles(g, [], n)
+            rep[name] = Tn
+            Mn = np.array(Tn.matrix, dtype=float).T
+            col[name] = Mn
+            col[name.swapcase()] = np.linalg.inv(Mn)
+            for w in list(inp["words"]) + ["A", "b", "aAbB", "BA"]:
+                R = rep[w] @ pts
+                want = np.einsum("ij,...j->...i", colmat(w), np.array(pts.proj_data))
+                if not O.rows_proj_eq(R.proj_data, want, 1e-7):
+                    bad.append({"what": "word_action_after_reassignment", "word": w, "reassigned": name, "step": step,
+                                "expected": "after rep[g] = M', every word acts as the product of the current generator matrices (inverse letters through the inverse of M')"})
+                    break
     return {"bad": bad}
 
 
@@ -640,6 +656,30 @@ def run_inc(inp):
             Z = A.inv() @ (A @ X)
             if not (O.rows_proj_eq(Z.dual_data, f, 1e-7) and O.rows_proj_eq(Z.proj_data, verts, 1e-7)):
                 bad.append({"what": "dual_inverse"})
+        # composite polygons acted on by composite maps (wave 6: the dual block was multiplied with the unit rank of the
+        # primary data): member [i] (elementwise) / [i][j] (pairwise) of the image, *including its dual functional*, is the
+        # image of member i under map i / j
+        m = 2 + int(g.integers(0, 2))
+        vs = np.concatenate([np.ones((m, 5, 1)), O.klein(g, (m, 5), n)], axis=-1)
+        fs = np.concatenate([np.ones((m, 1)), g.uniform(-0.3, 0.3, (m, n))], axis=-1)
+        Xc = P.ConvexPolygon(vs, dual_data=fs)
+        Ms = np.array([np.array(O.invertibles(g, [], n, cx).matrix) for _ in range(m)])
+        Ac = P.Transformation(Ms)
+        single = lambda i, j: P.Transformation(Ms[j]) @ P.ConvexPolygon(vs[i], dual_data=fs[i])
+        for mode in ("elementwise", "pairwise"):
+            Yc = Ac.apply(Xc, broadcast=mode) if mode != "elementwise" else Ac @ Xc
+            want_shape = (m,) if mode == "elementwise" else (m, m)
+            if tuple(Yc.shape) != want_shape or Yc.dual_data is None or tuple(np.shape(Yc.dual_data)) != want_shape + (n + 1,):
+                bad.append({"what": "dual_composite_shape", "mode": mode, "shape": list(Yc.shape),
+                            "dual_shape": None if Yc.dual_data is None else list(np.shape(Yc.dual_data))})
+                continue
+            for i in range(m):
+                for j in ([i] if mode == "elementwise" else range(m)):
+                    S = single(i, j)
+                    ix = (i,) if mode == "elementwise" else (i, j)
+                    if not (O.rows_proj_eq(np.array(Yc.dual_data)[ix], S.dual_data, 1e-7)
+                            and O.rows_proj_eq(np.array(Yc.proj_data)[ix], S.proj_data, 1e-7)):
+                        bad.append({"what": "dual_composite_member", "mode": mode, "member": list(ix)})
         return {"bad": bad}
     A = O.isometries(g, [] if g.random() < 0.5 else shape, n)
     if kind in ("hyperplane", "dualpoint"):
